@@ -136,7 +136,9 @@ func post(c *ev.Check, outs []*run.Outcome) {
 	c.Require("wire.sync_replies_compared", 10)
 	c.Require("wire.client_decodes_compared", 10)
 	c.Require("wire.client_rounds_compared", 4)
-	c.Require("wire.orders_compared", 4)
+	c.Require("wire.orders_compared", 9)
+	c.Require("wire.orders_with_repeated_key", 5)
+	c.Require("migsize.large_orders_accepted", 7)
 	c.Require("max.wire_list_entries", 8)
 	c.Require("max.wire_list_bytes", 1000)
 	c.Require("fanout.scenarios", 5)
